@@ -14,7 +14,7 @@ import (
 func init() {
 	register(&propDef{
 		ID:          "C14",
-		Explanation: "Schedules are not explored and no race detector is run. Decides the shape that makes interference impossible — all state a render can touch is per-render, immutable after initialisation, or guarded: R1 every package-level variable of packages templ, templ/runtime and templ/safehtml is classified, and each classification is an obligation: immutable (no write outside its initialiser/init: assignments, element/field stores, map updates, delete, ++, address-taking), a sync type, atomic-only (every use is &v passed to a sync/atomic function), or mutex-guarded (every use has a mutex in the must-held set of its function's CFG, or sits in a helper all of whose callers hold one); a variable fitting no class is a violation naming it; thorough: writes from any other package of the module are included; R3 pooled objects are not used after release (release is deferred, or nothing that mentions the object is reachable after it); R4 nothing the generator can emit declares package-level state; R5 the render context value is freshly allocated per InitializeContext and never stored in a package-level variable. R6 the per-render state is created per context by InitializeContext only and never copied; R7 its map fields are only assigned freshly made maps (never a map shared between requests); R8 the memory of a pooled buffer is not used after the buffer went back to the pool. R9 generated templates release the output buffer only when they acquired it themselves (the release is guarded by the not-an-existing-buffer flag): a nested component that released its parent's buffer would put it into the pool twice and two concurrent renders would write into the same buffer. R10 a bufio.Writer is never built over a caller-supplied io.Writer (bufio.NewWriterSize returns its argument when that already is a large enough *bufio.Writer, so a pooled object would adopt the caller's buffer); R11 slices read out of package-level (guarded) variables are never refilled in place (append / element store): readers use them after the lock is released. NOT decided: interleavings, byte equality with the sequential run, user components' own state. R12 a value that holds a sync primitive by value is never copied (assignment from an existing value, value receiver / parameter, range value, return) in packages templ and runtime. R13 every return leaves the package-level locks released; R14 shared slices are not appended to in place where readers hold the old header; R15 component closures keep no state between renders. R16 every field that a method of a pooled type stores into is assigned by the type's Reset. R17 a field that methods of a type write and whose instances are shared through package-level variables is read only after the object's once.Do on every path, or under a lock. R18 no write to (or render into) a writer happens while a package-level mutex is held; R19 nothing touches an object after sync.Pool.Put — in the body (reachability), in deferred calls (which run after a Put in the body), or in a call deferred before a deferred Put (last-in first-out).",
+		Explanation: "Schedules are not explored and no race detector is run. Decides the shape that makes interference impossible — all state a render can touch is per-render, immutable after initialisation, or guarded: R1 every package-level variable of packages templ, templ/runtime and templ/safehtml is classified, and each classification is an obligation: immutable (no write outside its initialiser/init: assignments, element/field stores, map updates, delete, ++, address-taking), a sync type, atomic-only (every use is &v passed to a sync/atomic function), or mutex-guarded (every use has a mutex in the must-held set of its function's CFG, or sits in a helper all of whose callers hold one); a variable fitting no class is a violation naming it; thorough: writes from any other package of the module are included; R3 pooled objects are not used after release (release is deferred, or nothing that mentions the object is reachable after it); R4 nothing the generator can emit declares package-level state; R5 the render context value is freshly allocated per InitializeContext and never stored in a package-level variable. R6 the per-render state is created per context by InitializeContext only and never copied; R7 its map fields are only assigned freshly made maps (never a map shared between requests); R8 the memory of a pooled buffer is not used after the buffer went back to the pool. R9 generated templates release the output buffer only when they acquired it themselves (the release is guarded by the not-an-existing-buffer flag): a nested component that released its parent's buffer would put it into the pool twice and two concurrent renders would write into the same buffer. R10 a bufio.Writer is never built over a caller-supplied io.Writer (bufio.NewWriterSize returns its argument when that already is a large enough *bufio.Writer, so a pooled object would adopt the caller's buffer); R11 slices read out of package-level (guarded) variables are never refilled in place (append / element store): readers use them after the lock is released. NOT decided: interleavings, byte equality with the sequential run, user components' own state. R12 a value that holds a sync primitive by value is never copied (assignment from an existing value, value receiver / parameter, range value, return) in packages templ and runtime. R13 every return leaves the package-level locks released; R14 shared slices are not appended to in place where readers hold the old header; R15 component closures keep no state between renders. R16 every field that a method of a pooled type stores into is assigned by the type's Reset. R17 a field that methods of a type write and whose instances are shared through package-level variables is read only after the object's once.Do on every path, or under a lock. R18 no write to (or render into) a writer happens while a package-level mutex is held; R19 nothing touches an object after sync.Pool.Put — in the body (reachability), in deferred calls (which run after a Put in the body), or in a call deferred before a deferred Put (last-in first-out). R14 also: a slice field is never sorted in place. R20 packages templ and templ/runtime start no goroutine.",
 		Assumptions: []string{"sync.Pool, sync.Mutex and sync/atomic provide their documented guarantees", "regexp.Regexp and reflect.Type values are safe for concurrent use"},
 		Trusted:     []string{"go/types", "go/parser", "x/tools go/packages, go/cfg"},
 		Run:         runC14,
@@ -46,6 +46,8 @@ func runC14(c *Ctx) {
 	lazilyInitialisedFieldsAreReadBehindTheirOnce(c, "C14.R17", ".", "runtime", "safehtml")
 	noCallerIOUnderPackageLock(c, "C14.R18", ".", "runtime")
 	nothingTouchesAPooledObjectAfterPut(c, "C14.R19", ".", "runtime")
+	noGoroutinesInTheRenderPath(c, "C14.R20", ".", "runtime")
+	sharedListsAreNotSortedInPlace(c, "C14.R14", ".", "runtime")
 	bufioNotOverCallerWriter(c, "C14.R10")
 	guardedMemoryNotReusedInPlace(c, "C14.R11")
 	var scan []*packages.Package
